@@ -292,6 +292,15 @@ Example axis_order_nonvacuous :
   adapt_to_version V130 false (adapt_to_111 V130 false (5, 45, 15, 55)) = (5, 45, 15, 55).
 Proof. repeat split. Qed.
 
+(* the pixel position of a feature info request is (column, row) on the wire for every version and both axis
+   orders: what goes upstream is what the client sent, and together with axis_order_all the forwarded request
+   denotes the same pixel of the same rectangle *)
+Lemma info_pos_roundtrip (cv uv : wms_version) (ne : bool) (wire_bbox : Q * Q * Q * Q) (pos : Z * Z) :
+  info_pos_to_version uv ne (info_pos_to_111 cv ne pos) = pos /\
+  info_pos_to_111 cv ne pos = pos /\
+  wire_rectangle uv ne (adapt_to_version uv ne (adapt_to_111 cv ne wire_bbox)) = wire_rectangle cv ne wire_bbox.
+Proof. split; [reflexivity|]. split; [reflexivity|]. apply axis_order_roundtrip. Qed.
+
 (* ---- feature info *)
 (* InfoQuery.coord is the ground position of the upper left corner of the clicked pixel *)
 Lemma info_coord_pixel_corner b0 b1 b2 b3 w h i j :
@@ -986,3 +995,46 @@ Example meta_tile_georef_nonvacuous :
   exists mb sz pats, meta_tile m 1 1 2 = (mb, sz, pats) /\
                      nth_error pats 1 = Some (Some (1, 0, 2), (64, 0)) /\ mb = (-1000, -500, 380, 780).
 Proof. cbv zeta. do 3 eexists. split; [vm_compute; reflexivity|]. split; reflexivity. Qed.
+
+(* ================================================================== rescaled tiles (downscale_tiles / upscale_tiles) *)
+Local Open Scope Z_scope.
+
+Lemma nth_error_mask_missing avail ts i t :
+  nth_error (mask_missing avail ts) i = Some (Some t) -> nth_error ts i = Some (Some t) /\ avail t = true.
+Proof.
+  unfold mask_missing. rewrite nth_error_map. destruct (nth_error ts i) as [[t'|]|]; cbn [option_map]; try discriminate.
+  destruct (avail t') eqn:E; [|discriminate]. intros H. injection H as <-. auto.
+Qed.
+
+(* A tile built from the neighbouring level: the list handed to TiledImage has one entry per cell of the mosaic
+   (missing source tiles keep their cell as None), the mosaic has exactly the extent src_bbox, and every source
+   tile that is present is pasted where its own bbox lies inside src_bbox. *)
+Lemma scaled_tile_georef g avail b sl ab nx ny ts :
+  wf g -> valid_level g sl = true ->
+  scaled_tile_sources g avail b sl = Affected ab nx ny ts ->
+  Z.of_nat (length ts) = nx * ny /\
+  bbox_w ab = fst (src_size nx ny (tw g) (th g)) * res_at g sl /\
+  bbox_h ab = snd (src_size nx ny (tw g) (th g)) * res_at g sl /\
+  forall i x y l',
+    nth_error ts i = Some (Some (x, y, l')) ->
+    l' = sl /\ avail (x, y, l') = true /\
+    ul_offset_ground ab (tile_bbox g x y sl) =
+      (fst (tile_offset nx (tw g) (th g) (Z.of_nat i)) * res_at g sl,
+       snd (tile_offset nx (tw g) (th g) (Z.of_nat i)) * res_at g sl).
+Proof.
+  intros Hwf Hv. unfold scaled_tile_sources.
+  destruct (affected_level_tiles g b sl) as [ab' nx' ny' ts'|] eqn:E; [|discriminate].
+  intros H. injection H as <- <- <- <-.
+  destruct (mosaic_georef g b sl ab' nx' ny' ts' Hwf Hv E) as (Hlen & Hw & Hh & Hi).
+  split; [unfold mask_missing; rewrite map_length; exact Hlen|]. split; [exact Hw|]. split; [exact Hh|].
+  intros i x y l' Hn. apply nth_error_mask_missing in Hn. destruct Hn as [Hn Ha].
+  destruct (Hi i x y l' Hn) as [-> Hoff]. auto.
+Qed.
+
+Example scaled_tile_nonvacuous :
+  (* tile (0,0,1) of a 3-level pyramid built from level 2; the coverage ends in the middle: two of the four source
+     tiles are missing and keep their cells *)
+  let g := mkGrid 0 0 5120 5120 64 64 [40; 20; 10] false 23 20 4 1 in
+  scaled_tile_sources g (avail_in_coverage g (0, 0, 600, 5120)) (tile_bbox g 0 0 1) 2 =
+    Affected (0, 0, 1280, 1280) 2 2 [Some (0, 1, 2); None; Some (0, 0, 2); None].
+Proof. vm_compute. reflexivity. Qed.
